@@ -15,4 +15,11 @@ PROPS = {
         "assumptions": ["Go slice aliasing in the reducer's append is modelled by pure lists (justified by BatchProofs.splice_go_eq under |resp| = |chunk|)",
                         "completion order of chunk goroutines = order in which the reducer receives them (observed through the verif hook)"],
     },
+    "C20": {
+        "corr_name": "Corr.C20.agrees (hook-event traces of common.AsyncMapReduce accepted by Conc.AMRAccept.accepts, final accumulator/errors equal)",
+        "level_text": "Full proof on the model: AsyncMapReduce as a labelled transition system (one state machine per worker, reducer and caller; unbuffered channels as rendezvous; WaitGroup counter), for every number of items, every success/error pattern and every interleaving: invariant wg = #unacknowledged workers + [reducer busy]; at return every item was mapped exactly once, every success reduced exactly once, acc = fold of reduce over a permutation of the successes, errors = failures, reducer stopped; reduce never concurrent; no deadlock; termination (Properties/C20.v, closed under the global context). Tied to the code by trace conformance: every hook-event trace recorded from the real helper under perturbed scheduling must be accepted by the executable acceptor (proved sound w.r.t. the LTS) and end in the final state with the returned accumulator and errors; the property's own oracle (map/reduce counters, concurrency flag, goroutine count) runs on the real code each time.",
+        "level_note": "Trusted: Coq kernel + vm_compute; the hand-written LTS Conc/AMR.v at the granularity of the verif hook points (statement-level interleaving semantics; the Go memory model is not modelled); mapFunc/reduceFunc total and free of panics (a panic in mapFunc is C07/C09's subject); the verif hooks themselves; harness. Perturbed scheduling samples interleavings on the real code, the theorem covers all of them on the model.",
+        "trusted": ["interleaving semantics at hook-point granularity; Go scheduler and memory model not modelled (data races are looked for with the direct oracle, not excluded by proof)"],
+        "assumptions": ["mapFunc and reduceFunc are total and do not panic", "items are distinguishable (the harness uses 0..n-1)"],
+    },
 }
